@@ -995,6 +995,21 @@ ImplOf(ev, pre) ==
               IF FuseEnabled(x, g) /\ x.blocks # <<>> THEN <<TRUE, IFuseCore(x, g)>> ELSE none
          [] ev.op = "unfuse" ->
               LET ax == NormAx(a.axis, n) IN IF IsFused(x.ix[ax]) THEN <<TRUE, IUnfuse(x, ax)>> ELSE none
+         [] ev.op = "neg" -> <<TRUE, INeg(x)>>
+         [] ev.op \in {"smul", "rsmul", "ismul"} -> <<TRUE, IScale(x, a.k)>>
+         [] ev.op \in {"add", "iadd", "sub", "isub", "mul", "imul"} ->
+              LET y == Ins(ev, pre, 2) IN
+              IF ~IsArray(y) \/ ~AllExact(y) \/ ~SameShape(x, y) THEN none
+              ELSE IF ev.op \in {"add", "iadd"} THEN <<TRUE, IBinary(x, y, VAdd, "outer")>>
+              ELSE IF ev.op \in {"mul", "imul"} THEN <<TRUE, IBinary(x, y, VMul, "inner")>>
+              ELSE IF SectorSet(x) = SectorSet(y) THEN <<TRUE, IBinary(x, y, VSub, "strict")>> ELSE none
+         [] ev.op = "multiply_diagonal" ->
+              LET v == Ins(ev, pre, 2)
+                  ax == NormAx(a.axis, n)
+              IN IF IsVector(v) /\ AllExact(v) /\ MulDiagEnabled(x, v, ax) THEN <<TRUE, IMulDiag(x, v, ax)>> ELSE none
+         [] ev.op = "sync_charges" -> <<TRUE, ISyncCharges(x)>>
+         [] ev.op = "fill_missing_blocks" -> IF x.blocks # <<>> THEN <<TRUE, IFillMissing(x)>> ELSE none
+         [] ev.op = "einsum" -> IF EinsumEnabled(x, a.lhs, a.rhs) THEN <<TRUE, IEinsum(x, a.lhs, a.rhs)>> ELSE none
          [] OTHER -> none
      ELSE
        CASE ev.op = "transpose" -> <<TRUE, IFTranspose(x, PermArg(a, n), ~(Has(a, "phase") /\ a.phase = FALSE))>>
@@ -1006,6 +1021,28 @@ ImplOf(ev, pre) ==
          [] ev.op = "phase_global" -> <<TRUE, IPhaseGlobal(x)>>
          [] ev.op = "phase_sector" -> <<TRUE, IPhaseSector(x, a.sector)>>
          [] ev.op = "phase_sync" -> <<TRUE, IPhaseSync(x)>>
+         [] ev.op = "neg" -> <<TRUE, INeg(x)>>
+         [] ev.op \in {"smul", "rsmul", "ismul"} -> <<TRUE, IScale(x, a.k)>>
+         [] ev.op \in {"add", "iadd", "sub", "isub", "mul", "imul"} ->
+              LET y == Ins(ev, pre, 2) IN
+              IF ~IsArray(y) \/ ~IsFermi(y) \/ ~AllExact(y) \/ ~SameShape(x, y) \/ Labels(x) # Labels(y) THEN none
+              ELSE IF ev.op \in {"add", "iadd"} THEN <<TRUE, IFBinary(x, y, VAdd, "outer")>>
+              ELSE IF ev.op \in {"mul", "imul"} THEN <<TRUE, IFBinary(x, y, VMul, "inner")>>
+              ELSE IF SectorSet(x) = SectorSet(y) THEN <<TRUE, IFBinary(x, y, VSub, "strict")>> ELSE none
+         [] ev.op = "squeeze" -> <<TRUE, IFSqueeze(x, SqueezeAxes(x, a))>>
+         [] ev.op = "expand_dims" ->
+              LET p == ExpandPos(x, a.axis) IN
+              <<TRUE, IFExpand(x, p, IF Has(a, "c") THEN a.c ELSE Zero, ExpandDual(x, p, a))>>
+         [] ev.op = "sync_charges" -> <<TRUE, ISyncCharges(x)>>
+         [] ev.op = "multiply_diagonal" ->
+              LET v == Ins(ev, pre, 2)
+                  ax == NormAx(a.axis, n)
+              IN IF IsVector(v) /\ AllExact(v) /\ MulDiagEnabled(x, v, ax) THEN <<TRUE, IMulDiag(x, v, ax)>> ELSE none
+         [] ev.op = "fill_missing_blocks" -> IF x.blocks # <<>> THEN <<TRUE, IFillMissing(x)>> ELSE none
+         [] ev.op = "matmul" ->
+              LET y == Ins(ev, pre, 2) IN
+              IF ~IsArray(y) \/ ~AllExact(y) \/ ~LabelsOK(x.oddpos \o y.oddpos) THEN none ELSE <<TRUE, IFMatmul(x, y)>>
+         [] ev.op = "einsum" -> IF EinsumEnabled(x, a.lhs, a.rhs) THEN <<TRUE, IFEinsum(x, a.lhs, a.rhs)>> ELSE none
          [] ev.op = "fuse" ->
               LET g == Groups1(a.groups) IN
               IF FuseEnabled(x, g) /\ x.blocks # <<>> THEN <<TRUE, IFFuse(x, g)>> ELSE none
@@ -1022,10 +1059,25 @@ ImplDrift(ev, pre) ==
   ELSE LET m == ImplOf(ev, pre)
            r == Outs(ev, 1)
        IN IF ~m[1] THEN {}
-          ELSE IF IsArray(r) THEN (IF AllExact(r) THEN F(L2Eq(m[2], r), "L2." \o ev.op) ELSE {})
+          ELSE IF IsArray(r) THEN (IF AllExact(r) THEN {"L2+" \o ev.op} \cup F(L2Eq(m[2], r), "L2." \o ev.op) ELSE {})
           ELSE IF IsScalar(r) /\ r.exact
-          THEN F(Rank(m[2]) = 0 /\ r.v = ValAt(Elem(m[2]), <<>>), "L2." \o ev.op \o ".scalar")
+          THEN {"L2+" \o ev.op} \cup F(Rank(m[2]) = 0 /\ r.v = ValAt(Elem(m[2]), <<>>), "L2." \o ev.op \o ".scalar")
           ELSE {}
+\* operations whose result is a number or a dense array
+ImplScalarDrift(ev, pre) ==
+  LET x == Ins(ev, pre, 1)
+      r == Outs(ev, 1)
+      y == IF IsFermi(x) THEN IPhaseSync(x) ELSE x
+  IN IF ev.outcome = "raise" \/ ~IsArray(x) \/ ~AllExact(x) \/ x.blocks = <<>> THEN {}
+     ELSE CASE ev.op = "sum" -> IF IsScalar(r) /\ r.exact THEN {"L2+sum"} \cup F(r.v = ISum(y), "L2.sum") ELSE {}
+            [] ev.op = "norm_sq" -> IF IsScalar(r) /\ r.exact THEN {"L2+norm_sq"} \cup F(r.v = <<INorm2(y), 0>>, "L2.norm_sq") ELSE {}
+            [] ev.op = "trace" ->
+                 IF IsScalar(r) /\ r.exact /\ Rank(x) = 2 /\ Contractible(x, x, <<1>>, <<2>>)
+                 THEN {"L2+trace"} \cup F(r.v = (IF IsFermi(x) THEN IFTrace(x) ELSE ITrace(x)), "L2.trace") ELSE {}
+            [] ev.op = "to_dense" ->
+                 IF IsDense(r) /\ r.exact /\ Rank(x) > 0
+                 THEN LET d == IToDense(y) IN {"L2+to_dense"} \cup F(r.shape = d.shape /\ r.data = d.data, "L2.to_dense") ELSE {}
+            [] OTHER -> {}
 
 
 \* C07 routine level: one recorded call of the axis-matching routine
@@ -1080,11 +1132,20 @@ EventDrift(ev, pre) ==
   ELSE IF ev.op = "threads_run" THEN ThreadsDrift(ev)
   ELSE IF ev.op = "init" /\ Has(ev.args, "descs")
   THEN \* programs exported from Machine.tla: the real inputs must be the arrays the model started from
-       UNION { LET d == ev.args.descs[r]
+       UNION { LET d == ev.args.descs[r] IN
+               IF d.kind = "vector"
+               THEN {"L2+init"} \cup F(LET v == BuildVector([blocks |-> d.blocks, start |-> d.start])
+                                           w == ev.regs[r]
+                                       IN IsVector(w) /\ Len(w.blocks) = Len(v.blocks)
+                                          /\ \A k \in 1..Len(v.blocks) : w.blocks[k].c = v.blocks[k].c /\ w.blocks[k].data = v.blocks[k].data,
+                                       "L2.init." \o r)
+               ELSE
+               LET
                    dd == [ix |-> d.ix, charge |-> d.charge, drop |-> SeqRange(d.drop), start |-> d.start,
                           phases |-> SeqRange(d.phases), oddpos |-> d.oddpos]
-               IN F(L2Eq(BuildArray(d.sym, d.kind, dd), ev.regs[r]), "L2.init." \o r) : r \in DOMAIN ev.args.descs }
+               IN {"L2+init"} \cup F(L2Eq(BuildArray(d.sym, d.kind, dd), ev.regs[r]), "L2.init." \o r) : r \in DOMAIN ev.args.descs }
   ELSE IF ev.op \in {"rel", "init", "observe", "op_apply", "make_state"} THEN {}
+  ELSE IF ev.op \in {"sum", "norm_sq", "trace", "to_dense"} /\ ev.in # <<>> THEN ImplScalarDrift(ev, pre)
   ELSE ImplDrift(ev, pre)
 
 =============================================================================
